@@ -104,7 +104,13 @@ class LiquidError(Exception):
                 break
 
         if target_line_index == -1:
-            raise ValueError("index is out of bounds for the given string")
+            if index > len(text):
+                raise ValueError("index is out of bounds for the given string")
+            # An index one past the last character, as given with errors found
+            # at the end of input, belongs to the last line.
+            if not lines:
+                lines = [""]
+            target_line_index = len(lines) - 1
 
         # Line number (1-based)
         line_number = target_line_index + 1
